@@ -17,6 +17,7 @@ from .core import Sim, Violation, HarnessError, mix
 EXIT_OK, EXIT_VIOLATION, EXIT_HARNESS = 0, 1, 2
 # per-run limit in CPU seconds of the worker process (not wall time: a loaded machine must not turn a long
 # run into a "hang"); a run that burns that much CPU without finishing is reported as 'unbounded'
+SCHED_KINDS = frozenset(("sched", "preempt", "preempt.line", "preempt.stall"))
 RUN_ALARM_S = int(os.environ.get("VERIF_RUN_ALARM", "120"))
 WATCHDOG_WALL_S = int(os.environ.get("VERIF_WATCHDOG_WALL", "1800"))
 
@@ -38,7 +39,7 @@ def _worker(modname, tier, vseed, phase_idx, phase, lo, hi):
     res = {
         "runs": 0, "counts": Counter(), "faults": Counter(), "probes": Counter(),
         "classes": set(), "sim_s": 0.0, "violations": [], "errors": [], "sample": None,
-        "digests": [], "cpu_s": 0.0,
+        "digests": [], "cpu_s": 0.0, "schedules": set(),
     }
     params = phase.get("params", {})
     t0 = time.process_time()
@@ -78,6 +79,9 @@ def _worker(modname, tier, vseed, phase_idx, phase, lo, hi):
         res["faults"].update(sim.faults)
         res["probes"].update(sim.probes)
         res["classes"] |= sim.classes
+        sched = [v for v, kd in zip(sim.trace, sim.kinds) if kd in SCHED_KINDS]
+        if sched:
+            res["schedules"].add(mix(*sched) if len(sched) < 4000 else mix(len(sched), *sched[:2000], *sched[-2000:]))
         res["sim_s"] += sim.now
         if res["sample"] is None and sim.sample is not None:
             res["sample"] = sim.sample
@@ -110,7 +114,7 @@ def run_check(modname, tier="quick", vseed=0, workers=None, scale=1.0, wall_limi
         for lo in range(0, n, chunk):
             jobs.append((pi, ph, lo, min(n, lo + chunk)))
     tot = {"runs": 0, "counts": Counter(), "faults": Counter(), "probes": Counter(),
-           "classes": set(), "sim_s": 0.0, "cpu_s": 0.0}
+           "classes": set(), "sim_s": 0.0, "cpu_s": 0.0, "schedules": set()}
     violations, errors, samples = [], [], {}
     per_phase = Counter()
     skipped = 0
@@ -135,6 +139,7 @@ def run_check(modname, tier="quick", vseed=0, workers=None, scale=1.0, wall_limi
                 for k in ("counts", "faults", "probes"):
                     tot[k].update(res[k])
                 tot["classes"] |= res["classes"]
+                tot["schedules"] |= res["schedules"]
                 tot["sim_s"] += res["sim_s"]
                 tot["cpu_s"] += res["cpu_s"]
                 violations.extend(res["violations"])
@@ -209,6 +214,10 @@ def run_check(modname, tier="quick", vseed=0, workers=None, scale=1.0, wall_limi
         "runs_per_hour": runs_per_hour,
         "evaluations_per_hour": int(evals / wall * 3600) if wall > 0 else 0,
         "sim_seconds": round(tot["sim_s"], 3),
+        "distinct_schedules": len(tot["schedules"]),
+        "distinct_schedules_measure": "number of different sequences of scheduler decisions (which task runs next, pre-emption "
+                                      "yes/no at synchronisation operations and source lines, stall length) among the runs; 0 for "
+                                      "checks whose world has a single thread of control",
         "faults_fired": dict(sorted(tot["faults"].items())),
         "probes": dict(sorted(tot["probes"].items())),
         "counters": dict(sorted(tot["counts"].items())),
